@@ -110,6 +110,11 @@ var engineCases = []engineCase{
 	{"zzMapKeyReassigned", "M", map[string]probeWant{"a": {"T", ""}, "b": {"T", ""}}},
 	{"zzMapUnrelatedStore", "M", map[string]probeWant{"a": {"T", "F"}}},
 	{"zzMapAppliedConfiguration", "M", map[string]probeWant{"a": {"FT", ""}}},
+	{"zzStoreThenWindow", "T", map[string]probeWant{"before": {"=", "<>"}, "a": {"<=>", ""}}},
+	// coupled atoms: atom 0 is r.currentTerm ? p1.Term, constrained only through transitivity ("X" adds the two links);
+	// "Y" adds the mirror image of T. Forgetting must hit all of them at once.
+	{"zzTransitiveWindow", "X", map[string]probeWant{"before": {"=", "<>"}, "a": {"<=>", ""}}},
+	{"zzMirrorWindow", "Y", map[string]probeWant{"a": {"<=>", ""}}},
 	{"zzMinWrongDirection", "T", map[string]probeWant{"a": {"<=>", ""}, "b": {"<=", ">"}}},
 }
 
@@ -245,6 +250,12 @@ func TestEngine(t *testing.T) {
 				continue
 			}
 			at = CmpAtom("I", name, "p0.Term")
+			atoms = append(atoms, at, engineAtom("T"))
+		} else if c.atom == "X" {
+			at = CmpAtom("R", "r.currentTerm", "p1.Term")
+			atoms = append(atoms, at, engineAtom("T"), CmpAtom("Q", "p0.Term", "p1.Term"))
+		} else if c.atom == "Y" {
+			at = CmpAtom("M", "p0.Term", "r.currentTerm")
 			atoms = append(atoms, at, engineAtom("T"))
 		} else {
 			at = engineAtom(c.atom)
